@@ -7,7 +7,7 @@ ids = [json.loads(l)['id'] for l in open(os.path.join(root, 'properties.jsonl'))
 S_NOTE = ("Trusted base: the vsched scheduler model of Go's sync/atomic/channel/select/context semantics (engine/shim), the vinstr "
           "source rewriter, and the assumption that code between two visible operations is atomic - itself checked by the "
           "happens-before race detector on every struct field of the package in every explored execution. Sequentially consistent "
-          "atomics; no weak-memory effects. Scenarios are small (1-2 lanes, 2-5 tasks); beyond the reported bound the argument is the small-scope hypothesis.")
+          "atomics; no weak-memory effects. The scheduler model is cross-checked against the real runtime (tools/conformance.sh: 19 micro-programs, native outcomes are a subset of the explored ones) and the sleep-set reduction against the plain search (tools/sleepdiff.sh). Scenarios are small (1-2 lanes, 2-5 tasks); beyond the reported bound the argument is the small-scope hypothesis.")
 
 LOG_NOTE = ("Trusted base: the ordered JSON reader (encoding/json tokens) / the key=value tokenizer, the reference builder of the expected "
             "attribute structure (engine/vlog), slog's own Record/GroupValue semantics. Scope: strings exhaustive to 2 bytes and single scalars; "
